@@ -10,7 +10,32 @@ TRUSTED_BASE = [
 BASE_VERIFY_FNS = ["verify_label", "verify_existence", "verify_existence_with_val", "verify_existence_with_commitment", "verify_nonexistence",
                    "verify_membership", "verify_nonmembership", "NodeLabel.value", "NodeLabel.root", "NodeLabel.new"]
 
+TN = "TreeNodeWithPreviousValue."
 PROPS = {
+    "C13": {
+        "verus": [("tree_node", [TN + "determine_node_to_get", TN + "get_appropriate_tree_node_from_storage"])],
+        "search": True,
+        "always_search": True,
+        "scope": "partial: the as-of read of a node record never returns a node newer than the epoch asked for (so no answer stitches a newer node into an older epoch), returns the latest "
+                 "node whenever it is not newer, and otherwise only NotFound. Interleavings, the change poller and the cache are not decided.",
+        "trusted": ["T6 async functions are verified under single-task sequential semantics; a storage read is a function of (manager, key) during one call",
+                    "StorageManager::get is external (assumed to return the stored record)"],
+        "assumed": ["residual seen by reading: get_child_node maps NotFound to 'no child', so a reader overtaken during a request can still assemble a non-verifying proof (outside this contract)"],
+    },
+    "C11": {
+        "verus": [("tree_node", [TN + "determine_node_to_get", TN + "get_appropriate_tree_node_from_storage", TN + "write_to_storage", "TreeNode.write_to_storage", "lemma_rot"])],
+        "scope": "partial, record level: TreeNode::write_to_storage writes exactly {label, latest: self, previous: as-of(stored, epoch-1) or None when new}; rotation lemma: that record still "
+                 "serves the as-of-(E) node at E and serves the new node at E+1; readers select by target epoch. The crash-point quantifier over sets of records is not decided.",
+        "trusted": ["T6 sequential semantics of async fns", "StorageManager::get/set external", "derived Clone is structural (companion)"],
+        "assumed": [],
+    },
+    "C04": {
+        "verus": [("tree_node", ["TreeNode.set_child", "lemma_sum"])],
+        "scope": "partial: set_child maintains (last_epoch, min_descendant_epoch) as max/min summaries of the descendants (with frame: nothing else changes; refusal exactly for a child that "
+                 "does not extend the parent) - the invariant the audit walk's pruning relies on. Correctness of the walk for all histories is not decided.",
+        "trusted": ["NodeLabel::get_prefix_ordering as a function (its meaning is proved under C17)", "core::cmp::{max,min} assumed via cmp_spec"],
+        "assumed": [],
+    },
     "C07": {
         "verus": ["verify_history", ("verify_base", BASE_VERIFY_FNS)],
         "verus_thorough": ["node_label", "markers"],
